@@ -51,6 +51,12 @@ def main():
             rc = mod.main(args.tier, seed)
         sys.stdout.flush()
         return rc
+    except core.WorkerPoisoned as e:
+        res = core.Result()
+        res.executions = res.states = res.transitions = 1
+        if e.info:
+            res.violation(e.info["sig"], e.info["msg"], e.info["replay"])
+        return core.finish(pid, args.tier, seed, res, time.time() - t0, "the check was cut short by an unresponsive library thread", [], exhaustive=False)
     except core.HarnessError as e:
         print(f"HARNESS-ERROR property={pid}: {e}")
         return 2
